@@ -20,6 +20,10 @@ that store into RANKS before / after the budget assertion.
       A an integer >= 1, the pool is charged at least A - 1, every division has a denominator the path knows
       to be POSITIVE (a float32 difference can cancel to a negative number, truthiness is not enough), and the
       remaining-score variable decreases by at most the layer's own score.
+      Also: every rank stored is <= d on its own path (outlier test and rank formula agree), every share has the
+      proportional form floor(score * pool / remaining), and with it the pool provably stays >= 0.
+  R5  the assertions of a group iteration are implied by what the code before them establishes (they never trip): an
+      assertion stricter than what the loops guarantee would turn valid inputs into AssertionErrors.
   R4  create_groups keys every layer by its axis dimension (the `dim` entry, else the number of rows of
       `eigvecs`) and puts each layer name into exactly the group of its key.
 Not decided: that the proportional phase never trips its own assertions for float scores (then no allocation is
@@ -42,6 +46,7 @@ ASSUMPTIONS = ['scores are non-negative finite floats', 'assert statements are e
 
 
 def _short(e, n=110):
+  e = str(e) if not isinstance(e, str) else e
   s = str(e)
   s = s.replace('opq(getitem, ', 'item(')
   return s if len(s) <= n else s[:n] + '...'
@@ -149,12 +154,27 @@ def group_iteration(ctx, fi, ip, gev):
     ctx.ob('C17.R2', fi.short, f'ranks change after the budget assertion only inside the top-up loop [{tag}]', not stray and len(after) <= 1,
            'a store into the ranks after `assert sum(ranks) <= budget` and outside the top-up loop is not covered by any accounting', ctx.loc(fi, gnode),
            sample='assert ...; top-up loop; write-out', trivial=True)
+    pdata = []
     if len(before) != 1:
       ctx.ob('C17.R3', fi.short, 'one proportional loop fills the ranks', False, f'expected one loop storing ranks before the budget assertion, found {len(before)}', ctx.loc(fi, gnode))
     else:
-      proportional(ctx, fi, ip, before[0], oid, G, d, B)
+      pdata = proportional(ctx, fi, ip, before[0], oid, G, d, B)
+    asserts_hold(ctx, fi, evs, pdata, oid, B, S)
     for T in after:
       topup(ctx, fi, ip, T, oid, d, B, S)
+
+
+def _integer_valued(e):
+  """sums / products of integers, integer symbols, floor(.) / int(.) results and dict cells"""
+  if e.is_integer:
+    return True
+  if isinstance(e, (sp.floor, imp.trunc, cell, dsum, plen)):
+    return True
+  if isinstance(e, (sp.Add, sp.Mul)):
+    return all(_integer_valued(a) for a in e.args)
+  if isinstance(e, sp.Pow):
+    return _integer_valued(e.base) and bool(e.exp.is_integer and e.exp.is_nonnegative)
+  return False
 
 
 def wfacts_atoms(f):
@@ -313,8 +333,49 @@ def proportional(ctx, fi, ip, P, oid, G, d, B):
       probs.append(f'entry: pool `{name}` = {_short(C0)} is not known to be >= 0')
     paths = _rerun(ip, P, [sp.Ge(C, 0, evaluate=False), d_pos] + nonneg)
     n_paths = 0
+    # which loop variable is the remaining score (a denominator), and which item component is the layer's score:
+    # every share must have the proportional form  score * pool / remaining
+    remaining = {}
+    scores = set()
+    bad_share = []
+    for p, evs in paths:
+      for e in evs:
+        if e[0] == 'div':
+          for n2, t in lv.items():
+            if n2 != name and e[1] == t:
+              remaining[n2] = t
+    floors = set()
+    for p, evs in paths:
+      for kind, e_ in p.facts.items:
+        if e_ is not None and isinstance(e_, sp.Basic):
+          floors |= e_.atoms(sp.floor)
+      for e in evs:
+        if e[0] == 'dict-store' and isinstance(e[3], sp.Basic):
+          floors |= e[3].atoms(sp.floor)
+    lemmas = []
+    for fl in floors:
+      x = fl.args[0]
+      if x == 0:
+        continue
+      ok_form = False
+      for n2, t in remaining.items():
+        cand_ = sp.simplify(x * t / C)
+        if not (cand_.free_symbols & {t, C}) and cand_.free_symbols & item_syms:
+          scores.add(cand_)
+          ok_form = True
+          # lemma (exact arithmetic): 0 <= floor(score * pool / remaining) <= pool  when 0 <= score <= remaining, pool >= 0
+          lemmas.append(sp.Le(fl, C, evaluate=False))
+          lemmas.append(sp.Ge(fl, 0, evaluate=False))
+      if not ok_form:
+        bad_share.append(fl)
+    for fl in bad_share:
+      probs.append(f'a share `{_short(fl)}` is not of the proportional form floor(score * pool / remaining score): the pool is not known to cover it')
     for p, evs in paths:
       n_paths += 1
+      for lm in lemmas:
+        fs = p.facts.assume(lm)
+        if len(fs) == 1:
+          p.facts = fs[0]
       stores = [(e[2], e[3]) for e in evs if e[0] == 'dict-store' and e[1] == oid]
       keys = {k for k, _ in stores}
       if len(keys) != 1:
@@ -323,46 +384,48 @@ def proportional(ctx, fi, ip, P, oid, G, d, B):
       k, A = stores[-1]
       if not (isinstance(k, sp.Basic) and k.free_symbols & item_syms):
         probs.append(f'the rank is stored under `{_short(k)}`, not under the current layer')
+      if isinstance(k, sp.Basic) and any(k == sc_ for sc_ in scores):
+        probs.append(f'the rank is stored under the layer\'s score `{_short(k)}`, not under its key')
       if not isinstance(A, sp.Basic):
         probs.append('the stored rank is not numeric')
         continue
-      if not A.is_integer:
+      if not _integer_valued(A):
         probs.append(f'the stored rank `{_short(A)}` is not integer-valued')
       if not p.facts.entails(sp.Ge(A, 1, evaluate=False)):
         probs.append(f'the stored rank `{_short(A)}` is not known to be >= 1')
+      if not p.facts.entails(sp.Le(A, d, evaluate=False)):
+        probs.append(f'the stored rank `{_short(A)}` is not known to be <= dim on this path (the outlier test and the rank formula disagree)')
       C1 = p.env.get(name)
       if not isinstance(C1, sp.Basic) or not p.facts.entails(sp.Ge(sp.expand(C - C1 - (A - 1)), 0, evaluate=False)):
         probs.append(f'the pool is charged {_short(sp.expand(C - C1)) if isinstance(C1, sp.Basic) else "?"} for a rank of {_short(A)} (must be at least rank - 1)')
+      elif not p.facts.entails(sp.Ge(C1, 0, evaluate=False)):
+        probs.append(f'the pool can become negative ({_short(C1)}): later shares would be negative and ranks < 1')
       for e in evs:
         if e[0] == 'div' and not e[2]:
           probs.append(f'division by `{_short(e[1])}` whose positivity is not established on this path (a float32 difference can cancel to a negative number; truthiness is not enough)')
-      # remaining-score variables: other loop variables used as denominators
-      for e in evs:
-        if e[0] == 'div':
-          for n2, t in lv.items():
-            if n2 != name and e[1] == t:
-              t1 = p.env.get(n2)
-              if not isinstance(t1, sp.Basic):
-                continue
-              delta = sp.expand(t - t1)
-              share = [a for a in A.atoms(sp.floor)]
-              sc = None
-              for fl in share:
-                x = fl.args[0]
-                cand = sp.simplify(x * t / C)
-                if not (cand.free_symbols & {t, C}):
-                  sc = cand
-              if sc is not None and not p.facts.entails(sp.Le(delta, sc, evaluate=False)):
-                probs.append(f'the remaining score `{n2}` decreases by {_short(delta)}, more than the layer\'s own score {_short(sc)}')
+      for n2, t in remaining.items():
+        t1 = p.env.get(n2)
+        if not isinstance(t1, sp.Basic):
+          continue
+        delta = sp.expand(t - t1)
+        if scores and not any(p.facts.entails(sp.Le(delta, sc_, evaluate=False)) for sc_ in scores):
+          probs.append(f'the remaining score `{n2}` decreases by {_short(delta)}, more than the layer\'s own score {[_short(x_) for x_ in scores]}')
+        if not p.facts.entails(sp.Ge(delta, 0, evaluate=False)) and scores:
+          pass
     if n_paths == 0:
       probs.append('no feasible path through the loop body')
-    cand = (len(probs), name, probs, n_paths)
-    if best is None or cand < best:
+    pdata = []
+    for p, evs in paths:
+      st_ = [(e[2], e[3]) for e in evs if e[0] == 'dict-store' and e[1] == oid]
+      if st_ and isinstance(st_[-1][1], sp.Basic):
+        pdata.append((p.facts, st_[-1][1]))
+    cand = (len(probs), name, probs, n_paths, pdata)
+    if best is None or cand[:2] < best[:2]:
       best = cand
   if best is None:
     ctx.ob('C17.R3', fi.short, 'proportional loop accounting', False, 'the proportional loop keeps no pool variable', ctx.loc(fi, node))
-    return
-  nprob, name, probs, n_paths = best
+    return []
+  nprob, name, probs, n_paths, pdata = best
   ctx.need('C17.R3', n_paths, 2, 'paths through one proportional iteration')
   probs = list(dict.fromkeys(probs))
   groups_ = {'entry': [x for x in probs if x.startswith('entry')], 'division': [x for x in probs if x.startswith('division')],
@@ -373,6 +436,46 @@ def proportional(ctx, fi, ip, P, oid, G, d, B):
          '; '.join(groups_['division']), ctx.loc(fi, node), sample='x / total if total > 0 else 0.0')
   ctx.ob('C17.R3', fi.short, 'each layer gets one integer rank >= 1 and the pool is charged at least rank - 1', not groups_['rank'],
          '; '.join(groups_['rank']), ctx.loc(fi, node), sample=f'{n_paths} paths: rank in {{dim, floor(share) + 1}}, pool -= rank - 1')
+  return pdata
+
+
+def asserts_hold(ctx, fi, evs, pdata, oid, B, S):
+  """R5: the assertions of a group iteration are implied by what the code before them establishes - they never trip,
+  so an allocation is returned for every input (an assertion stricter than what the loops guarantee turns valid inputs
+  into AssertionErrors)."""
+  n = 0
+  for e in evs:
+    if e[0] == 'assert':
+      rel, node, before = e[1], e[2], e[3]
+      f = before.copy()
+      if any(isinstance(a, dsum) for a in rel.atoms(sp.Function)):
+        # what the proportional loop guarantees about the sum (R3: one unit per layer set aside, each rank charged)
+        f.add('le', sp.expand(S - B))
+      ok = f.entails(rel)
+      n += 1
+      ctx.ob('C17.R5', fi.short, f'assertion cannot trip: {_short(rel, 60)}', ok,
+             f'`assert {_short(rel, 160)}` is not implied by what is established before it: valid inputs would raise AssertionError instead of getting an allocation',
+             ctx.loc(fi, node), sample=_short(rel, 80))
+    if e[0] == 'loop':
+      for qq, _ in e[3]:
+        for x in qq.events[e[5]:]:
+          if x[0] == 'assert':
+            rel, node = x[1], x[2]
+            cells = [a for a in rel.atoms(sp.Function) if isinstance(a, cell)]
+            if not cells or not pdata:
+              continue
+            bad = []
+            for facts, A in pdata:
+              r2 = rel
+              for c in cells:
+                r2 = r2.subs(c, A)
+              if not facts.entails(r2):
+                bad.append(_short(A))
+            n += 1
+            ctx.ob('C17.R5', fi.short, f'assertion over all ranks cannot trip: {_short(rel, 60)}', not bad,
+                   f'`assert {_short(rel, 120)}` can fail for a rank the proportional loop hands out ({", ".join(dict.fromkeys(bad))}): such inputs raise instead of getting an allocation',
+                   ctx.loc(fi, node), sample=_short(rel, 80))
+  return n
 
 
 def groups(ctx):
